@@ -20,6 +20,7 @@ import (
 type occurrence struct {
 	addr uintptr
 	path string
+	val  string // canonical value of the destination after the call
 }
 
 // occurrences walks the final destination along the schema and records, for
@@ -58,7 +59,7 @@ func occurrences(n *model.Node, v reflect.Value, path string, out map[int][]occu
 	if c, ok := c12Canon[id]; ok {
 		id = c
 	}
-	out[id] = append(out[id], occurrence{addr: v.Addr().Pointer(), path: path})
+	out[id] = append(out[id], occurrence{addr: v.Addr().Pointer(), path: path, val: model.CanonJSON(v)})
 	switch n.Kind {
 	case model.KStruct:
 		for _, f := range n.Fields {
@@ -107,6 +108,13 @@ func propC12(c model.Case) hh.Verdict {
 	c12Canon = canonicalIDs(c.Root)
 	occ := map[int][]occurrence{}
 	occurrences(c.Root, dest.Elem(), "", occ)
+	anyMutate := false
+	c.Root.Walk(func(n *model.Node) {
+		for _, p := range n.Posts {
+			anyMutate = anyMutate || p.Behaviour == "mutate"
+		}
+		anyMutate = anyMutate || n.Kind == model.KPre // a Preprocess rewrites the value before the inner tests, and Validate writes it back
+	})
 	wantCtx := map[string]string{}
 	for _, k := range c12Keys {
 		wantCtx[k] = "<nil>"
@@ -161,6 +169,17 @@ func propC12(c model.Case) hh.Verdict {
 				wantT := model.GoType(n.Kind).String()
 				if ev.ArgNil || ev.ArgType != wantT {
 					return hh.Fail("event %d: TestFunc of %s node n%d received %s (nil=%v), expected the value itself (%s)", i, n.Kind, ev.Node, ev.ArgType, ev.ArgNil, wantT)
+				}
+				// ... and it is the node's own value: one of the values its destinations hold (checked when nothing
+				// can change a value after its tests ran: no mutating PostTransform anywhere, no Catch on the node)
+				if !anyMutate && n.Catch == nil {
+					own := false
+					for _, o := range occ[ev.Node] {
+						own = own || o.val == ev.ArgVal
+					}
+					if !own {
+						return hh.Fail("event %d: TestFunc of %s node n%d received the value %s, which none of its destinations holds", i, n.Kind, ev.Node, ev.ArgVal)
+					}
 				}
 				continue
 			}
